@@ -10,7 +10,7 @@ Definition cls_code (c : option cls) : N :=
   match c with
   | None => 0 | Some CCommaSet => 1 | Some CStar => 2 | Some CReversedRange => 3 | Some CParenGroup => 4
   | Some CNotOrArity => 5 | Some CUnknownKey => 6 | Some CTextAtom => 8
-  | Some CUidSingle => 9 | Some CUidIgnoresKeys => 10 | Some CQuotedSpace => 11
+  | Some CQuotedSpace => 11
   end.
 
 Definition ob_eqb (a b : option bool) : bool :=
@@ -52,9 +52,9 @@ Definition session_case_code (mb : list smsg) (c : scase) : N :=
   let '(ks, text, uid_mode, impl) := c in
   let parts := if uid_mode then tag_ :: S_ "UID" :: S_ "SEARCH" :: fields text
                else tag_ :: S_ "SEARCH" :: fields text in
-  let model := if uid_mode then handle_uid_search parts (to_msgs mb) else search_cmd parts (to_msgs mb) in
+  let model := if uid_mode then uid_search_cmd parts (to_msgs mb) else search_cmd parts (to_msgs mb) in
   let spec := if uid_mode then spec_uid_search ks mb else spec_search ks mb in
-  let c := if uid_mode then classify_uid_line ks else classify_line ks mb in
+  let c := classify_line ks mb in
   mk_code (negb (reply_eqb model impl)) (negb (reply_ok impl spec)) c (negb (str_eqb (print_prog ks) text)).
 
 (** raw command arguments (CHARSET forms, soups): model against implementation *)
@@ -63,7 +63,7 @@ Definition raw_session_case_code (mb : list smsg) (c : rscase) : N :=
   let '(text, uid_mode, impl) := c in
   let parts := if uid_mode then tag_ :: S_ "UID" :: S_ "SEARCH" :: fields text
                else tag_ :: S_ "SEARCH" :: fields text in
-  let model := if uid_mode then handle_uid_search parts (to_msgs mb) else search_cmd parts (to_msgs mb) in
+  let model := if uid_mode then uid_search_cmd parts (to_msgs mb) else search_cmd parts (to_msgs mb) in
   if reply_eqb model impl then 0 else 1.
 
 Fixpoint nonzero_from (i : N) (l : list N) : list N :=
